@@ -735,4 +735,9 @@ class SupportedSRS(object):
 
     def __eq__(self, other):
         # .prefered_srs is set global, so we only compare .supported_srs
-        return self.supported_srs == other.supported_srs
+        if not isinstance(other, SupportedSRS):
+            return NotImplemented
+        # SRS can be equal while having a different srs_code (EPSG:3857/900913).
+        # The code is what a source is asked with, so only lists with the same codes are equal.
+        return ([srs.srs_code for srs in self.supported_srs] ==
+                [srs.srs_code for srs in other.supported_srs])
